@@ -1933,11 +1933,16 @@ def l_legacytext( ctx ):
              for t in a.targets if isinstance( t, ast.Name ) }
     if not raw or not octs:
         raise AnalysisError( 'legacy_CPF_0x0001.produce: the sin_addr field and its produced octets not found' )
-    fb = [ i for i in fn.body if isinstance( i, ast.If ) and isinstance( i.test, ast.Compare ) and isinstance( i.test.ops[0], ast.Is ) and isinstance( i.test.left, ast.Name )
-           and isinstance( i.test.comparators[0], ast.Constant ) and i.test.comparators[0].value is None ]
+    def none_test( t ):
+        if isinstance( t, ast.Compare ) and len( t.ops ) == 1 and isinstance( t.ops[0], ast.Is ):
+            for a_, b_ in (( t.left, t.comparators[0] ), ( t.comparators[0], t.left )):
+                if isinstance( a_, ast.Name ) and isinstance( b_, ast.Constant ) and b_.value is None:
+                    return a_.id
+        return None
+    fb = [ i for i in fn.body if isinstance( i, ast.If ) and none_test( i.test ) ]
     if len( fb ) != 1:
         raise AnalysisError( 'legacy_CPF_0x0001.produce: the fall-back block ( if <text> is None: ) not found' )
-    TEXT = fb[0].test.left.id
+    TEXT = none_test( fb[0].test )
     infl = set( octs )
     changed = True
     stmts = [ st for st in ast.walk( fb[0] ) if isinstance( st, ( ast.Assign, ast.AugAssign, ast.With, ast.For, ast.Expr )) ]
